@@ -337,6 +337,84 @@ fn run_alpha<A: Alphabet>(alpha: &'static str, ctx: &mut Ctx, rep: &mut Report, 
             }
         }
     }
+    // ---- homopolymer runs: whole SIMD blocks made of one byte (masked N / X stretches, low-complexity runs) -----
+    rep.space(
+        "homopolymer",
+        "runs of ONE repeated byte filling whole 16/32-byte blocks: alphabet x 6 pipelines + API arms x \
+         (a) a run of each alphabet letter (wildcard included) of length {32, 40, 64, 70} after a valid head of 0 or 3 letters and before a valid tail of 5, with EVERY position of the run x EVERY byte value 0..=255 substituted; \
+         (b) a run of EVERY byte value 0..=255 (valid or not) of length {32, 33, 64} after a head of 0 or 1 letters, with a valid tail of 0 or 5 letters; oracle: letter table (ranks, Display round-trip, first offending character)",
+    );
+    for (li, &letter) in lt.iter().enumerate() {
+        for &run in &[32usize, 40, 64, 70] {
+            for &head in &[0usize, 3] {
+                let idx = *base;
+                *base += 1;
+                if !ctx.mine(idx) {
+                    continue;
+                }
+                let mut bg = background(lt, head, li);
+                bg.extend(std::iter::repeat(letter).take(run));
+                bg.extend(background(lt, 5, li + 1));
+                let mut text = bg.clone();
+                for p in head..head + run {
+                    for b in 0..=255u8 {
+                        text[p] = b;
+                        for cfg in cfgs::ALL_ECFGS {
+                            rep.eval_distinct(b != letter);
+                            if let Err((sig, msg)) = check_one::<A>(cfg, &text) {
+                                rep.violation(format!("C05 {} {} homopolymer {}", alpha, cfg.name(), sig), msg, || case_json(alpha, cfg.name(), &text));
+                            }
+                        }
+                        if b % 16 == 1 || rank(lt, b).is_some() || b.is_ascii_lowercase() || (b & letter) == letter {
+                            for arm in cfgs::FORCED {
+                                rep.eval_distinct(b != letter);
+                                if let Err((sig, msg)) = check_api::<A>(arm, &text) {
+                                    rep.violation(format!("C05 {} api[{}] homopolymer {}", alpha, cfgs::arm_name(arm), sig), msg, || {
+                                        case_json(alpha, &format!("api[{}]", cfgs::arm_name(arm)), &text)
+                                    });
+                                }
+                            }
+                        }
+                    }
+                    text[p] = letter;
+                }
+            }
+        }
+        if ctx.out_of_time() {
+            rep.cap(format!("homopolymer/{}: wall-clock cap at letter {}", alpha, letter as char));
+            return;
+        }
+    }
+    for v in 0..=255u8 {
+        let idx = *base;
+        *base += 1;
+        if !ctx.mine(idx) {
+            continue;
+        }
+        for &run in &[32usize, 33, 64] {
+            for &head in &[0usize, 1] {
+                for &tail in &[0usize, 5] {
+                    let mut text = background(lt, head, 0);
+                    text.extend(std::iter::repeat(v).take(run));
+                    text.extend(background(lt, tail, 1));
+                    for cfg in cfgs::ALL_ECFGS {
+                        rep.eval_distinct(true);
+                        if let Err((sig, msg)) = check_one::<A>(cfg, &text) {
+                            rep.violation(format!("C05 {} {} homopolymer {}", alpha, cfg.name(), sig), msg, || case_json(alpha, cfg.name(), &text));
+                        }
+                    }
+                    for arm in cfgs::FORCED {
+                        rep.eval_distinct(true);
+                        if let Err((sig, msg)) = check_api::<A>(arm, &text) {
+                            rep.violation(format!("C05 {} api[{}] homopolymer {}", alpha, cfgs::arm_name(arm), sig), msg, || {
+                                case_json(alpha, &format!("api[{}]", cfgs::arm_name(arm)), &text)
+                            });
+                        }
+                    }
+                }
+            }
+        }
+    }
     // ---- multi-byte UTF-8 text through from_str ------------------------------------------------
     rep.space(
         "utf8",
